@@ -983,6 +983,62 @@ let all_edges_v = self.get_all_edges();
         }
 //@ end
 
+//@ extract fn src/graph/query.rs get_successor_node_names props=C02,C20 ty=Graph
+//@ rewrite
+-> Result<Vec<&T>, Error>
+//@ with
+-> (r: Result<Vec<&T>, Error>)
+//@ rewrite
+Ok(nodes.into_iter().map(|n|
+//@ with
+let ghost nv = nodes@;
+        Ok(vmap_collect(nodes, |n: &Arc<Node<T, A>>| -> (o: &T) ensures *o == n.name {
+//@ rewrite
+).collect())
+//@ with
+ }))
+//@ spec
+    requires
+        self.wf_nodes(),
+        self.wf_index_members(),
+    ensures
+        // [C02.adjacency.successor_names_guards]
+        !self.specs.directed ==> is_err_kind(r, ErrorKind::WrongMethod),
+        self.specs.directed && !self.knows(node_name) ==> is_err_kind(r, ErrorKind::NodeNotFound),
+        // [C02.adjacency.successor_names_are_the_names_of_the_successor_nodes]
+        self.specs.directed && self.knows(node_name) ==> r.is_ok() && exists|nodes: Seq<&Arc<Node<T, A>>>|
+            #[trigger] self.lists_nodes_of(self.succ_set(self.nodes_map@[node_name]), nodes) && r.unwrap()@.len() == nodes.len()
+            && forall|i: int| 0 <= i < nodes.len() ==> *#[trigger] r.unwrap()@[i] == nodes[i].name,
+//@ end
+
+//@ extract fn src/graph/query.rs get_predecessor_node_names props=C02,C20 ty=Graph
+//@ rewrite
+-> Result<Vec<&T>, Error>
+//@ with
+-> (r: Result<Vec<&T>, Error>)
+//@ rewrite
+Ok(nodes.into_iter().map(|n|
+//@ with
+let ghost nv = nodes@;
+        Ok(vmap_collect(nodes, |n: &Arc<Node<T, A>>| -> (o: &T) ensures *o == n.name {
+//@ rewrite
+).collect())
+//@ with
+ }))
+//@ spec
+    requires
+        self.wf_nodes(),
+        self.wf_index_members(),
+    ensures
+        // [C02.adjacency.predecessor_names_guards]
+        !self.specs.directed ==> is_err_kind(r, ErrorKind::WrongMethod),
+        self.specs.directed && !self.knows(node_name) ==> is_err_kind(r, ErrorKind::NodeNotFound),
+        // [C02.adjacency.predecessor_names_are_the_names_of_the_predecessor_nodes]
+        self.specs.directed && self.knows(node_name) ==> r.is_ok() && exists|nodes: Seq<&Arc<Node<T, A>>>|
+            #[trigger] self.lists_nodes_of(self.pred_set(self.nodes_map@[node_name]), nodes) && r.unwrap()@.len() == nodes.len()
+            && forall|i: int| 0 <= i < nodes.len() ==> *#[trigger] r.unwrap()@[i] == nodes[i].name,
+//@ end
+
 //@ extract fn src/graph/query.rs get_node_by_index props=C02,C20 ty=Graph
 //@ rewrite
 -> Option<&Arc<Node<T, A>>>
